@@ -131,8 +131,8 @@ def classify(fn, in_logging):
         if name not in NAME_ID:
             raise TranslateError(f"log-then-super on unknown method {name}")
         return f"(KLogSuper {COQ_NAME[name]})"
-    if _is_dunder(name):
-        raise TranslateError(f"{name}: unknown dunder method shape: {text}")
+    if _is_dunder(name) or name in ("_undefined_message", "_fail_with_undefined_error"):
+        raise TranslateError(f"{name}: unknown method shape: {text}")
     return "KOther"
 
 
